@@ -7,3 +7,4 @@ import IppModel.Props.C03
 #print axioms Ipp.Props.C03.additional_values_shape
 #print axioms Ipp.Props.C03.independent_decoder_correct
 #print axioms Ipp.Props.C03.independent_decoder_reads_encoder
+#print axioms Ipp.Props.C03.any_message
